@@ -123,6 +123,7 @@ impl Stats {
         self.add("fault.eof_delivered", f.eof);
         self.add("fault.reset_delivered", f.reset);
         self.add("fault.write_error_delivered", f.write_err);
+        self.add("fault.transient_read_error", f.read_err_once);
     }
 }
 
